@@ -13,6 +13,9 @@ for p in props:
         na.append(dict(property_id=p, reason=PENDING.get(p, "check not built yet; design in DESIGN.md section 6 (" + p + ")")))
         continue
     m = importlib.import_module("checks." + p.lower())
+    if not getattr(m, "READY", False):
+        na.append(dict(property_id=p, reason=PENDING.get(p, "check under construction; design in DESIGN.md section 6 (" + p + ")")))
+        continue
     checks.append(dict(
         property_id=p,
         quick_cmd=f"bin/check {p} --tier quick",
